@@ -13,7 +13,7 @@ well-formedness, classification of failures) is computed in Coq.
 import json
 import os
 
-from common import (Check, coq_bad_indices, run_impl, standard_proof_step, TRUSTED_COMMON, ROOT)
+from common import (Check, coq_bad_indices, coq_eval, run_impl, standard_proof_step, TRUSTED_COMMON, ROOT)
 from coqterm import cZ, cstr, cbool, copt, clist
 
 IMPORTS = "From XV Require Import Base.Str Spec.PyEval Model.Pycode Model.PycodeCorr."
@@ -807,6 +807,18 @@ def run(ck: Check):
             terms.append(f"(W{bi}, {cvalue(res['spec'])}, {cobs(res)})")
     ck.cov["evaluations"] = len(items)
     alldefs = "\n".join(defs)
+
+    # the Coq witnesses of Proofs/PycodeRefuted.v are the objects just built on the real code
+    if not ck.replay_file:
+        specs = [res["spec"] for res in out[0]["cases"]]
+        try:
+            verdict = coq_eval("c18_wit", IMPORTS + "\nFrom XV Require Import Proofs.PycodeRefuted.", defs[0],
+                               f"witnesses_agree W0 {clist(specs, cvalue, 'value')} W_wit witnesses")
+        except Exception as e:  # Proofs/PycodeRefuted.vo missing because the build is broken
+            verdict = f"unavailable: {type(e).__name__}"
+        if verdict != "true":
+            ck.failure("corr-witness", f"the refutation witnesses in Coq and the objects built by the harness differ ({verdict})",
+                       {"pkg": batches[0]["pkg"], "modules": batches[0]["modules"], "recipe": batches[0]["cases"][0]})
 
     def run_pred(pred, tag):
         bad = coq_bad_indices(f"c18_{tag}", IMPORTS, alldefs, "ccase", pred, terms, shard=60)
